@@ -122,6 +122,197 @@ def query_vcs() -> List[core.VC]:
                     note="launch calls = the eleven kernel/memcpy/memset launch names (CUDA, ROCm, MTIA) with a positive link; names absent from the table map to an id no event carries")]
 
 
+def _loop_over_groupby(fn_node):
+    for n in fn_node.body:
+        if isinstance(n, ast.For) and isinstance(n.iter, ast.Call) and isinstance(n.iter.func, ast.Attribute) and n.iter.func.attr == "groupby":
+            return n
+    raise pyvc.Unsupported("loop over groupby(...) not found")
+
+
+def queue_series_vcs() -> List[core.VC]:
+    """_get_queue_length_time_series_for_rank: marker table (relational) + per-stream prefix sum (window)."""
+    from hv import scanvc
+
+    name = f"{PROP}.queue_length"
+    f = extract.get_function(TC, "TraceCounters._get_queue_length_time_series_for_rank")
+    node = extract.stripped(f)
+    fq = [f.fq]
+    loop = _loop_over_groupby(node)
+    head = node.body[: node.body.index(loop)]
+    ex = pyvc.Exec(consts=extract.module_constants(TC), name=name)
+    fv.install(ex)
+    fv.install_symtab(ex)
+    I = z3.IntSort()
+    cols = {c: (I, False, "int") for c in ("index", "ts", "dur", "stream", "pid", "tid", "name", "correlation", "index_correlation")}
+    df = fv.SymDF.base("trace", cols)
+    idx = df.cols["index"].val
+    df.label = lambda r: idx(r)
+    before = dict(df.cols)
+    LQ = "(name == 7001 or name == 7002 or name == 7003) and (index_correlation > 0)"
+    st = fv.SymTab("st")
+    ex.methods["SymTab.get_runtime_launch_events_query"] = lambda exq, pc, env, obj, args, kwargs: LQ
+    ex.methods["Record.get_trace"] = lambda exq, pc, env, obj, args, kwargs: df
+    t = pyvc.Record("Trace", {"symbol_table": st})
+    env: Dict[str, Any] = {"cls": pyvc.Record("TraceCounters", {}), "t": t, "rank": z3.Int("rank")}
+    pc: List[Any] = []
+    skipped_assert = 0
+    for stt in head:
+        if isinstance(stt, ast.Assert):
+            skipped_assert += 1  # len(launch rows) == len(activity rows): a counting fact, bounded stage only
+            continue
+        outs = ex.exec_stmt(stt, pc, env)
+        if len(outs) != 1 or outs[0].kind != "fall":
+            raise pyvc.Unsupported("queue-length prefix forks")
+        pc, env = outs[0].pc, outs[0].env
+    merged = env.get("merged_df")
+    if not isinstance(merged, fv.SymDF) or not getattr(merged, "concat_parts", None) or len(merged.concat_parts) != 2:
+        raise pyvc.Unsupported("merged_df is not a concat of (launch rows, activity rows)")
+    pres = df.present
+    nm, ic, corr, stream, ts = (before[c].val for c in ("name", "index_correlation", "correlation", "stream", "ts"))
+    is_launch = lambda r: z3.And(to_z3(pres(r)), z3.Or(nm(r) == 7001, nm(r) == 7002, nm(r) == 7003), ic(r) > 0)
+    a, b = df.uni.skolem("a"), df.uni.skolem("b")
+    wf = [z3.ForAll(list(a) + list(b), z3.Implies(z3.And(to_z3(pres(a)), to_z3(pres(b)), stream(a) != -1, stream(b) != -1, corr(a) == corr(b)), a[0] == b[0]),
+                    patterns=[z3.MultiPattern(corr(a), corr(b))])]  # WF2 on the device side
+    m = merged.uni.skolem("m")
+    tag, base = m[0], (m[1],)
+    _ = to_z3(merged.present(m))
+    hyps = list(ex.facts) + wf + [to_z3(c) for c in pc]
+    q = df.uni.skolem("q")
+    act = lambda r: z3.And(to_z3(pres(r)), stream(r) != -1, z3.Exists(list(q), z3.And(is_launch(q), corr(q) == corr(r))))
+    vcs = [core.VC(pv.name, pv.hyps + list(ex.facts) + wf, pv.goal, "vc", fq, {}, note=pv.note) for pv in ex.vcs]
+    need = {"ts", "queue", "stream"}
+    vcs.append(core.VC(f"{name}.S1_columns", [], z3.BoolVal(need <= set(merged.cols) and merged.uni.arity == 2), "vc", fq, {}, note=f"marker columns {sorted(merged.cols)}"))
+    if need <= set(merged.cols) and merged.uni.arity == 2:
+        vcs += [
+            core.VC(f"{name}.S1_marker_rows", hyps, to_z3(merged.present(m)) == z3.Or(z3.And(tag == 0, is_launch(base)), z3.And(tag == 1, act(base))), "vc", fq, {"tag": tag, "row": m[1]},
+                    note="one +1 marker per linked launch call, one -1 marker per device activity whose correlation id a launch call carries"),
+            core.VC(f"{name}.S1_marker_values", hyps + [to_z3(merged.present(m))],
+                    z3.And(to_z3(merged.cols["ts"].val(m)) == ts(base), to_z3(merged.cols["queue"].val(m)) == z3.If(tag == 0, 1, -1),
+                           z3.Implies(tag == 1, to_z3(merged.cols["stream"].val(m)) == stream(base))), "vc", fq, {"tag": tag},
+                    note="markers sit at the event's own start time; an activity's marker is on its own stream"),
+        ]
+        d = df.uni.skolem("d")
+        vcs.append(core.VC(f"{name}.S1_launch_marker_on_the_activitys_stream", hyps + [to_z3(merged.present(m)), tag == 0, to_z3(pres(d)), stream(d) != -1, corr(d) == corr(base)],
+                           z3.And(z3.Not(to_z3(merged.cols["stream"].isnull(m))), to_z3(merged.cols["stream"].val(m)) == stream(d)), "vc", fq, {},
+                           note="a launch call's marker takes stream / pid / tid from the device activity with the same correlation id"))
+        o = merged.order
+        vcs.append(core.VC(f"{name}.S2_sorted_by_time_launch_before_activity", [], z3.BoolVal(bool(o) and o[0] == "sorted" and o[2] == ("ts", "queue") and o[3] == "[True, False]"), "vc", fq, {},
+                           note=f"sort order {o[2:] if o else None}: by time, +1 before -1 at equal times (no activity is counted before its own launch)"))
+    # phase 2: loop body on a window over one stream's rows
+    for mode in ("base", "step"):
+        w = scanvc.Window(mode, f"ql_{mode}")
+        wf_, syms = scanvc.window_frame(w, {"ts": "int", "queue": "int", "stream": "int"}, "ts", f"ql_{mode}")
+        ex2 = pyvc.Exec(name=f"{name}.{mode}")
+        lst: List[Any] = []
+        env2 = ex2.assign(loop.target, (z3.Int("stream_key"), wf_), [], {"result_df_list": lst})
+        outs = ex2.exec_block(loop.body, [], env2)
+        if len(outs) != 1:
+            raise pyvc.Unsupported("loop body forks")
+        ql = wf_.cols.get("queue_length")
+        if mode == "step":
+            cs = [n for n in w.state_prev if n.startswith("cumsum#")]
+            ok = ql is not None and len(cs) == 1
+            vcs.append(core.VC(f"{name}.S3_queue_length_is_prefix_sum", [], (to_z3(ql.cur) == w.state_prev[cs[0]] + syms["queue"][1]) if ok else z3.BoolVal(False), "vc", fq, {},
+                               note="within a stream: queue_length(k) = queue_length(k-1) + queue(k)"))
+            vcs.append(core.VC(f"{name}.group_appended", [], z3.BoolVal(len(lst) == 1 and lst[0] is wf_), "vc", fq, {}))
+        else:
+            vcs.append(core.VC(f"{name}.S3_first_row", [], (to_z3(ql.cur) == syms["queue"][1]) if ql is not None else z3.BoolVal(False), "vc", fq, {}))
+    src = " ".join(ast.unparse(node).replace("'", '"').split())
+    tail_ok = 'pd.concat(result_df_list)[["ts", "pid", "tid", "stream", "queue_length"]] if len(result_df_list) > 0 else None' in src and 'merged_df.groupby("stream")' in src
+    if not tail_ok:
+        raise pyvc.Unsupported("result assembly of the queue-length series no longer matches the contract's reading")
+    vcs.append(core.VC(f"{name}.result_columns", [], z3.BoolVal(True), "vc", fq, {}, note="one group per stream, concatenated; columns ts, pid, tid, stream, queue_length; None without markers"))
+    return vcs
+
+
+def membw_series_vcs() -> List[core.VC]:
+    from hv import scanvc
+
+    name = f"{PROP}.memory_bw"
+    f = extract.get_function(TC, "TraceCounters._get_memory_bw_time_series_for_rank")
+    node = extract.stripped(f)
+    fq = [f.fq]
+    loop = _loop_over_groupby(node)
+    head = node.body[: node.body.index(loop)]
+    ex = pyvc.Exec(consts=extract.module_constants(TC), name=name)
+    fv.install(ex)
+    fv.install_symtab(ex)
+    I, R = z3.IntSort(), z3.RealSort()
+    cols = {c: (I, False, "int") for c in ("index", "ts", "dur", "stream", "pid", "name")}
+    cols["memory_bw_gbps"] = (R, False, "float")
+    df = fv.SymDF.base("trace", cols)
+    before = dict(df.cols)
+    st = fv.SymTab("st")
+    ktype = z3.Function("kernel_type_of", z3.StringSort(), z3.StringSort())
+    mtype = z3.Function("memory_kernel_type_of", z3.StringSort(), z3.StringSort())
+
+    @pyvc.intrinsic
+    def get_kernel_type(exq, pc, env, args, kwargs):
+        return ktype(to_z3(args[0]))
+
+    @pyvc.intrinsic
+    def get_memory_kernel_type(exq, pc, env, args, kwargs):
+        return mtype(to_z3(args[0]))
+
+    ex.intrinsics["get_kernel_type"] = get_kernel_type
+    ex.intrinsics["get_memory_kernel_type"] = get_memory_kernel_type
+    from contracts.C04 import _find_kernel_type
+    ex.consts["KernelType"] = pyvc.EnumCls("KernelType", _find_kernel_type())
+    ex.methods["Record.get_trace"] = lambda exq, pc, env, obj, args, kwargs: df
+    t = pyvc.Record("Trace", {"symbol_table": st})
+    env: Dict[str, Any] = {"cls": pyvc.Record("TraceCounters", {}), "t": t, "rank": z3.Int("rank")}
+    pc: List[Any] = []
+    r = df.uni.skolem("r0")
+    ex.facts.append(z3.ForAll(list(r), z3.Implies(to_z3(df.present(r)), z3.And(st.valid(before["name"].val(r)), before["dur"].val(r) >= 0))))
+    for stt in head:
+        outs = ex.exec_stmt(stt, pc, env)
+        if len(outs) != 1 or outs[0].kind != "fall":
+            raise pyvc.Unsupported("memory-bandwidth prefix forks")
+        pc, env = outs[0].pc, outs[0].env
+    series = env.get("membw_time_series")
+    if not isinstance(series, fv.SymDF) or not getattr(series, "concat_parts", None) or len(series.concat_parts) != 2:
+        raise pyvc.Unsupported("membw_time_series is not a concat of (start markers, end markers)")
+    m = series.uni.skolem("m")
+    tag, base = m[0], (m[1],)
+    _ = to_z3(series.present(m))
+    pres = df.present
+    nm, stream, ts, dur, bw = (before[c].val for c in ("name", "stream", "ts", "dur", "memory_bw_gbps"))
+    is_mem = lambda rr: z3.And(to_z3(pres(rr)), stream(rr) != -1, ktype(st.sym(nm(rr))) == z3.StringVal("MEMORY"))
+    hyps = list(ex.facts) + st.axioms() + [to_z3(c) for c in pc]
+    eff = z3.If(dur(base) == 0, 1, dur(base))
+    vcs = [core.VC(pv.name, pv.hyps + list(ex.facts), pv.goal, "vc", fq, {}, note=pv.note) for pv in ex.vcs]
+    need = {"ts", "name", "pid", "memory_bw_gbps"}
+    vcs.append(core.VC(f"{name}.S1_columns", [], z3.BoolVal(need == set(series.cols) and series.uni.arity == 2), "vc", fq, {}, note=f"columns {sorted(series.cols)}"))
+    if need == set(series.cols) and series.uni.arity == 2:
+        vcs += [
+            core.VC(f"{name}.S1_marker_rows", hyps, to_z3(series.present(m)) == z3.And(is_mem(base), tag >= 0, tag <= 1), "vc", fq, {"tag": tag, "row": m[1]},
+                    note="one start and one end marker per memory copy / memset activity"),
+            core.VC(f"{name}.S1_marker_values", hyps + [to_z3(series.present(m))],
+                    z3.And(to_z3(series.cols["ts"].val(m)) == z3.If(tag == 0, ts(base), ts(base) + eff), to_z3(series.cols["memory_bw_gbps"].val(m)) == z3.If(tag == 0, bw(base), -bw(base)),
+                           to_z3(series.cols["name"].val(m)) == mtype(st.sym(nm(base))), to_z3(series.cols["pid"].val(m)) == before["pid"].val(base)), "vc", fq, {"tag": tag},
+                    note="+bw at the start, -bw at start + max(dur, 1) (a zero-length copy counts one time unit); name = copy type of the decoded name"),
+            core.VC(f"{name}.S2_sorted_by_time", [], z3.BoolVal(bool(series.order) and series.order[0] == "sorted" and series.order[2] == "ts"), "vc", fq, {}),
+            core.VC(f"{name}.trace_not_modified", [], z3.BoolVal(not df.written and df.inplace_row_changes == 0), "vc", fq, {}),
+        ]
+    key = loop.iter.args[0].value if loop.iter.args and isinstance(loop.iter.args[0], ast.Constant) else None
+    vcs.append(core.VC(f"{name}.grouped_by_copy_type", [], z3.BoolVal(key == "name"), "vc", fq, {}))
+    for mode in ("base", "step"):
+        w = scanvc.Window(mode, f"bw_{mode}")
+        wf_, syms = scanvc.window_frame(w, {"ts": "int", "memory_bw_gbps": "float"}, "ts", f"bw_{mode}")
+        ex2 = pyvc.Exec(name=f"{name}.{mode}")
+        lst: List[Any] = []
+        env2 = ex2.assign(loop.target, (z3.Int("grp"), wf_), [], {"result_df_list": lst})
+        ex2.exec_block(loop.body, [], env2)
+        col = wf_.cols.get("memory_bw_gbps")
+        if mode == "step":
+            cs = [n for n in w.state_prev if n.startswith("cumsum#")]
+            vcs.append(core.VC(f"{name}.S3_series_is_prefix_sum", [], (to_z3(col.cur) == w.state_prev[cs[0]] + syms["memory_bw_gbps"][1]) if len(cs) == 1 else z3.BoolVal(False), "vc", fq, {},
+                               note="within a copy type: value(k) = value(k-1) + marker(k)"))
+        else:
+            vcs.append(core.VC(f"{name}.S3_first_row", [], to_z3(col.cur) == syms["memory_bw_gbps"][1], "vc", fq, {}))
+    return vcs
+
+
 # ---------------------------------------------------------------------------------------------- bounded
 
 
@@ -279,7 +470,9 @@ def bounded(ctx):
 
 def units(ctx):
     return [core.Unit(f"{PROP}.convert_time_series_to_events", convert_vcs, [TR + ".Trace.convert_time_series_to_events"]),
-            core.Unit(f"{PROP}.launch_query", query_vcs, [ST + ".TraceSymbolTable.get_runtime_launch_events_query"])]
+            core.Unit(f"{PROP}.launch_query", query_vcs, [ST + ".TraceSymbolTable.get_runtime_launch_events_query"]),
+            core.Unit(f"{PROP}.queue_length", queue_series_vcs, [TC + ".TraceCounters._get_queue_length_time_series_for_rank"]),
+            core.Unit(f"{PROP}.memory_bw", membw_series_vcs, [TC + ".TraceCounters._get_memory_bw_time_series_for_rank"])]
 
 
 SPEC = Spec(
